@@ -246,6 +246,7 @@ PROPS["C15"] = {
 }
 
 PROPS["C07"] = {
+    "modules": ["C07", "C07lock"],
     "families": ["rpll"],
     "n_quick": 200000, "n_thorough": 2000000,
     "clauses_proved": [
@@ -254,11 +255,12 @@ PROPS["C07"] = {
         "EXACT no-panic contract of update(Some x): dt2 <= 30, dt2 < sf <= 32, dt2 <= sp < dt2+32, non-negative timestamp step (rpll_total_under_contract, rpll_checked_ok_iff, rpll_negative_dx_panics)",
         "frequency-loop closed form and dead band: ff' = ff iff 2^(32+dt2) - 2^(sf-1) <= ff*dx < 2^(32+dt2) + 2^(sf-1) (rpll_ff_update, rpll_dead_band, rpll_dead_band_iff)",
         "NEGATION of the lock clause: dead-band orbit with 0.0162 turns phase error for ever (rpll_lock_phase_false_witness: F-C07-a); admissible configuration that never locks (rpll_never_locks_B, rpll_lock_full_false: F-C07-b)",
+        "POSITIVE lock theorems (Props/C07lock.lean): on the whole admissible region the frequency loop is an autonomous recursion that never wraps and converges geometrically into its dead band within 2^(sf-dt2+5) updates: relative error of ff <= 2^(sf-dt2-33) + 2^-20 (rpll_ff_converges, rpll_ff_geometric); on the sub-region 3*2^dt2 < P <= 2^sp the coupled phase loop contracts globally and from update 2^(sf-dt2+5) + b on, for ever, every offset, both profiles, frequency and phase errors are within explicit envelopes envF, envP (rpll_locks_within_envelope); where those envelopes are below 1e-5 / 1e-3 the property's lock clause holds literally (rpll_lock_holds_where_envelope_small; example dt2 = 8, sf = 16, sp = 15, P = 4000, every offset: rpll_lock_example)",
     ],
     "clauses_explored": [
         "lock within 2^(sf-dt2+5)+2^(sp-dt2+5) updates to 1e-5 / 1e-3 turns over the admissible region (native sweep, timestamps crossing the i32 boundary); misses are accepted only inside the two listed finding classes with their quantitative envelopes",
     ],
-    "level_text": "Structural clauses (getters, contract, dead band) are theorems; the lock clause is FALSE for the code (two proved witnesses) and is otherwise explored natively against the listed finding classes. No convergence proof is claimed for this loop.",
+    "level_text": "Structural clauses (getters, contract, dead band) are theorems; the lock clause as stated is FALSE for the code (two proved witnesses). What the loop does guarantee is proved instead: convergence of the frequency loop on the whole admissible region and lock within explicit envelopes on the sub-region 3*2^dt2 < P <= 2^sp (the literal clause where the envelopes are small). The rest of the region is explored natively against the listed finding classes.",
     "level_note": "Model: RPLL.update (IdspModel/Model/Rpll.lean). The state rpllStar of the dead-band witness is reached from RPLL::new(8) after 1572864 updates by #eval and by the native oracle, not inside the kernel.",
     "rule": "admissible (dt2, sf, sp, P, offset) with P at both ends, powers of two +-1 and random; update instants aligned to 2^dt2; sf-dt2 <= 13 (17 thorough)",
 }
@@ -295,17 +297,20 @@ PROPS["C09"] = {
     "rule": "log-uniform f0 1e-4..0.49, shape 0.1..50 (Q, bandwidth, slope), gain +-1e-2..1e2, shelf 1e-2..1e2, all nine types",
 }
 PROPS["C11"] = {
+    "modules": ["C11", "C11rec"],
     "families": ["lockin", "complex"],
     "n_quick": 100000, "n_thorough": 1000000,
     "clauses_proved": [
         "update(sample, phase) = update_iq(sample, from_angle(phase)) for every state, sample, phase, configuration, both profiles (lockin_update_eq_bind, lockin_update_eq_update_iq, lockin_update_of_cossin, lockin_step)",
         "mixer: floor(sample*lo/2^31) componentwise, never overflows, exact for LO values from cossin (cmul_scaled_i32_never_panics, cmul_scaled_i32_exact, lockin_mixer_exact); i16 and complex variants with their exact panic conditions (cmul_scaled_i16_never_panics, cmul_scaled_c_panics_iff, cmul_scaled_c_value)",
         "abs_sqr / log2 panic iff both components are i32::MIN; saturating add/sub in range (abs_sqr_panics_iff, log2_panics_iff, abs_sqr_value, log2_value, csat_add_sub_range)",
+        "RECOVERY (Props/C11rec.lean), every documented Butterworth pair with 2^20 <= k <= 2^25, every 0 <= A <= 2^30, every theta, start phase and reference frequency word in 0.05..0.45, samples within 1 of A cos(phi_n + theta), mean over any window of >= 4096 outputs after 40*2^32/k samples, both profiles: the run never panics; mixer = R(cos theta + cos(2 phi + theta), -sin theta + sin(2 phi + theta)) up to 9.1e-6 A + 2 (lockin_recovery_mixer); both mean components within 1.9e-5 A + 2.2*2^32/k + 6 of R(cos theta, -sin theta), R = A*A0/2^32 (lockin_recovery_window_sum, lockin_recovery_components); magnitude and angle error bounds in general (lockin_recovery_magnitude_general, lockin_recovery_angle_general: |delta| <= 5.4e-5 + 6.3*2^32/(k A) + 17/A); relative magnitude within 1e-3 whenever k A >= 2^45 and angle within 2e-4 rad whenever k A >= 3*2^46 (lockin_recovery_magnitude_partial, lockin_recovery_angle_partial)",
+        "NEGATION of the recovery clause as stated: k = 2^20, A = 2^23, theta = pi/4, F = 2^30: angle error > 9.7e-4 rad, kernel-evaluated 167936-update run (lockin_recovery_angle_witness, lockin_recovery_full_false): known finding F-C11",
     ],
     "clauses_explored": [
-        "recovered magnitude A/2 within 1e-3 relative and angle -theta within 2e-4 rad after 40*2^32/k samples (native sweep; small amplitudes miss the angle bound: known finding F-C11)",
+        "recovery in the gap between the certified thresholds (k A >= 2^45 magnitude, k A >= 3*2^46 angle) and the property's full range (native sweep; small amplitudes miss the angle bound: known finding F-C11, now also a proved negation)",
     ],
-    "level_text": "The equality clause and the mixer arithmetic are theorems; amplitude/phase recovery is an end-to-end numeric claim over cossin and two quantised second-order lowpasses and is explored natively only.",
+    "level_text": "The equality clause, the mixer arithmetic and the end-to-end recovery (cossin accuracy + mixer + input-to-state stability of the quantised second-order lowpass + attenuation and averaging of the 2f tone) are theorems with explicit error terms; they certify the stated 1e-3 / 2e-4 tolerances when k*A is large enough; the clause as stated for all A >= 2^23 is false for the code (proved negation, known finding). The gap between the certified thresholds and the true ones is explored natively.",
     "level_note": "Model: lockinUpdate, lockinUpdateIq, cmulScaled* (IdspModel/Model/Complex.lean), Lockin<Lowpass<2>>.",
     "rule": "A in {2^23, 2^30, random}, theta, f in 0.05..0.45, k in {2^20, 2^25, random}, random start phase; >= 1.6e5 samples per case; equality clause from arbitrary filter states",
 }
